@@ -281,11 +281,19 @@ static void run_group(Context& cx, const Group& g, const Resolved& r, bool mine)
         for (auto& l : L)
             total *= l.size();
         uint64_t stride = 1;
-        const uint64_t cap = thorough ? 4000000 : 300000;
+        const uint64_t cap = cx.termination_only ? (thorough ? 300000 : 30000) : (thorough ? 4000000 : 300000);
         if (total > cap)
             stride = (total / cap) | 1;
         sweep_product(cx, d, t, r, L, stride, mix64(seed), 64, imms);
         cx.st.cls("sweep_lattice_tuples", total / stride);
+    }
+    if (cx.termination_only)
+    {
+        // C14 stage: every exact operation is *executed* on the boundary lattice at every lane position and on rapidcheck cases;
+        // only a call that does not return (crash, or still running after kHangSeconds of CPU time) is reported
+        if (mine && cx.opt.budget > 0)
+            rc_group(cx, d, t, r, cx.opt.budget);
+        return;
     }
     // 2. exhaustive / strided full enumeration for small integer types (sliced over the workers when large)
     if (!tfloat(t) && bits <= 16 && !(d.cheap_only && bits == 16))
@@ -359,11 +367,13 @@ int main(int argc, char** argv)
     const std::string prop = cx.opt.prop;
     const bool scalar = prop == "C17";
     const bool c13 = prop == "C13";
+    const bool c14 = prop == "C14";
+    cx.termination_only = c14 && cx.opt.replay.empty();
     // ops of this property
     std::vector<const OpDef*> ops;
     for (auto& d : op_registry())
     {
-        bool take = scalar ? scalar_op_claimed(d) : (c13 ? (scalar_op_claimed(d) && d.family != "scalar") : d.prop == prop);
+        bool take = scalar ? scalar_op_claimed(d) : (c13 ? (scalar_op_claimed(d) && d.family != "scalar") : (c14 ? d.family != "scalar" : d.prop == prop));
         if (!cx.opt.only_ops.empty())
             take = take && cx.opt.only_ops.count(d.name);
         if (take && cx.opt.replay.empty())
